@@ -114,5 +114,6 @@ proof fn lemma_name_is_plain(n: Seq<char>)
 //@|    proof { lemma_lits(); }
 //@ END
 
+//@ AUTO-FREE-FNS
 } // verus!
 fn main() {}
